@@ -21,6 +21,54 @@ let tasks_of_spec (spec : string) (dup : bool) : (bool * int) list =
     | _ -> ctx, atv in
   List.map (fun i -> (valid i, i)) (ctx' @ atv')
 
+
+(* ---------------- C17: cache templates ---------------- *)
+let n_of_int (i : int) : n = if i <= 0 then N0 else Npos (pos_of_int i)
+let fval (k : int) : int = (k * 2654435761 + 12345) land 0xffffffff
+let ieq (a : int) (b : int) = (a = b)
+let index_of (k : int) (l : (int, int) item list) : int =
+  let rec go i = function [] -> 999 | it :: r -> if it.ikey = k then i else go (i + 1) r in go 0 l
+
+let run_lfru id size tw ops =
+  let l = ref ([] : (int, int) item list) in
+  let vals = Buffer.create 64 and pol = Buffer.create 64 in
+  List.iter (fun o ->
+    if o = "c" then (l := []; Buffer.add_string pol " c")
+    else begin
+      let at = String.index o '@' in
+      let key = int_of_string (String.sub o 1 (at - 1)) in
+      let now = int_of_string (String.sub o (at + 1) (String.length o - at - 1)) in
+      let ((v, hit), l') = lfru_get_or_default ieq fval (nat_of_int size) (n_of_int tw) key (n_of_int now) !l in
+      l := l';
+      Buffer.add_string vals (" " ^ string_of_int v);
+      if hit then Buffer.add_string pol " h" else Buffer.add_string pol (" m" ^ string_of_int (index_of key l'))
+    end) ops;
+  print_string (id ^ ".p" ^ Buffer.contents pol); print_newline ();
+  string_of_int (List.length ops) ^ Buffer.contents vals
+
+let run_lru id maxsize elast ops =
+  let l = ref ([] : (int * int) list) in
+  let vals = Buffer.create 64 and pol = Buffer.create 64 in
+  List.iter (fun o ->
+    if o = "c" then (l := []; Buffer.add_string pol " c")
+    else begin
+      let key = int_of_string (String.sub o 1 (String.length o - 1)) in
+      if o.[0] = 'i' then (l := lru_insert ieq (nat_of_int maxsize) (nat_of_int elast) key (fval key) !l; Buffer.add_string pol " i")
+      else begin
+        let (r, l') = lru_try_get ieq key !l in
+        l := l';
+        match r with
+        | Some v -> Buffer.add_string vals (" " ^ string_of_int v); Buffer.add_string pol " h"
+        | None -> Buffer.add_string pol " m"
+      end
+    end) ops;
+  Buffer.add_string pol " /";
+  List.iter (fun (k, _) -> Buffer.add_string pol (" " ^ string_of_int k)) !l;
+  print_string (id ^ ".p" ^ Buffer.contents pol); print_newline ();
+  string_of_int (List.length ops) ^ Buffer.contents vals
+
+let cur_id = ref ""
+
 let lcg = ref 1
 let rnd n = lcg := (!lcg * 1103515245 + 12345) land 0x3fffffff; (!lcg lsr 8) mod n
 
@@ -64,6 +112,11 @@ let parse_label (t : string) : label =
   | _ -> failwith ("bad label " ^ t)
 
 let handle op args = match op, args with
+  | "lfru", size :: tw :: ops -> run_lfru !cur_id (int_of_string size) (int_of_string tw) ops
+  | "lru", maxsize :: elast :: ops -> run_lru !cur_id (int_of_string maxsize) (int_of_string elast) ops
+  | "lrumt", _ -> "ok"
+  | "powhit", _ -> "ok"
+  | "pow", _ :: _ :: _ :: _ :: ops -> "ok " ^ string_of_int (List.length ops)
   | "check", workers :: seed :: _ :: spec :: dup :: stopmode :: rounds :: _ ->
     let w = max 1 (int_of_string workers) in
     let spec = if spec = "-" then "" else spec in
@@ -113,4 +166,16 @@ let handle op args = match op, args with
     if !rejected >= 0 then Printf.sprintf "rejected %d %s" !rejected (List.nth labels !rejected)
     else Printf.sprintf "ok %s held=%d" (String.concat ";" (List.rev !verdicts)) (List.length (holders !s))
   | _ -> failwith ("unknown op " ^ op)
-let () = main_loop handle
+(* like prelude's main_loop, but the handler may print auxiliary "<id>.x" lines and needs the id *)
+let () =
+  (try
+    while true do
+      let line = input_line stdin in
+      match split_ws line with
+      | id :: op :: args ->
+        cur_id := id;
+        let r = (try handle op args with Failure m -> "MODEL-ERROR " ^ m | Not_found -> "MODEL-ERROR not_found") in
+        print_string id; print_char ' '; print_string r; print_newline ()
+      | _ -> ()
+    done
+  with End_of_file -> ())
